@@ -75,7 +75,8 @@ func (e EnumSchema[S, T]) ValidateCompatibility(typeOrData any) error {
 		switch {
 		case (selfDisplayValue == nil || selfDisplayValue.Name() == nil) &&
 			(otherDisplayValue == nil || otherDisplayValue.Name() == nil):
-			return nil
+			// Neither side names this value: nothing to compare, go on with the remaining values.
+			continue
 		case otherDisplayValue == nil || otherDisplayValue.Name() == nil:
 			return &ConstraintError{
 				Message: fmt.Sprintf("display values for key %s is missing in compared data %T",
